@@ -149,6 +149,7 @@ type Sim struct {
 	steps    int
 	preempts int
 	stopping atomic.Bool
+	live     atomic.Int32 // tasks that have not finished
 	fail     *Failure
 	inconcl  string
 
@@ -582,6 +583,7 @@ func (s *Sim) newTask(id, origin string, lib bool) *Task {
 	t.site = "start:" + origin
 	t.lastSite = t.site
 	s.all = append(s.all, t)
+	s.live.Add(1)
 	return t
 }
 
@@ -606,6 +608,7 @@ func (s *Sim) startTask(t *Task, f func()) {
 			t.parked = false
 			delete(s.byGoid, g)
 			s.mu.Unlock()
+			s.live.Add(-1)
 			if r != nil && !s.stopping.Load() {
 				t.crashed = true
 				s.crash(t, r, stack)
@@ -703,6 +706,11 @@ func (s *Sim) Self() *Task { return s.self() }
 func (s *Sim) park(t *Task, site, what string, pred func() bool, deadline time.Time, idle bool) {
 	if s.stopping.Load() {
 		s.exit(t)
+		return
+	}
+	if pred == nil && !idle && s.live.Load() == 1 && s.fail == nil && s.inconcl == "" {
+		// the only live task: nobody else could be chosen
+		t.lastSite = site
 		return
 	}
 	s.mu.Lock()
